@@ -120,6 +120,8 @@ class FakeRandom(object):
         else:
             v = seq[self._w.rng.randrange(len(seq))]
         self._w.oracle["choice"].append(v)
+        # the candidate set itself (C18: must not depend on the listing/usage configuration)
+        self._w.oracle.setdefault("choice_from", []).append(sorted(seq) if all(isinstance(x, str) for x in seq) else repr(seq))
         return v
 
     def randrange(self, a, b):
@@ -528,6 +530,11 @@ class World(object):
                 if self.fault_armed:
                     # the sweep made no database access at all
                     self.fault_armed = False
+            return None
+        if k == "tick":
+            # wall time passes but the service's timer is not driven (metamorphic runs that
+            # place their sweeps explicitly, e.g. C11: both runs sweep at the same instants)
+            self.t += ev["dt"]
             return None
         if k == "advance":
             self.t += ev["dt"]
